@@ -179,6 +179,15 @@ impl SSAStatement<Config> for Statement {
                     args.push(name.with_version(env_version));
                     self.propagate_types(&env.declarations);
                     self.cache_variable_use();
+                } else if !args.iter().any(|arg| arg.version().is_none()) {
+                    // The variable has not been assigned on this path (it is either
+                    // declared without an initial value, or not in scope). We record
+                    // this using the unversioned name, which has no known value or
+                    // degree, to ensure that the phi expression is not identified
+                    // with the arguments from the paths where the variable is assigned.
+                    args.push(name.without_version());
+                    self.propagate_types(&env.declarations);
+                    self.cache_variable_use();
                 }
             }
             // If this is not a phi statement we panic.
